@@ -43,36 +43,40 @@ func (h *Hex) UnmarshalJSON(b []byte) error {
 
 // OptSpec is a serialisable option set. Zero fields mean "library default".
 type OptSpec struct {
-	WriteBuffer       int     `json:"wb,omitempty"`
-	TableSize         int     `json:"ts,omitempty"`
-	TableSizeMult     float64 `json:"tsm,omitempty"`
-	TotalSize         int     `json:"tot,omitempty"`
-	TotalSizeMult     float64 `json:"totm,omitempty"`
-	BlockSize         int     `json:"bs,omitempty"`
-	RestartInterval   int     `json:"ri,omitempty"`
-	NoCompression     bool    `json:"nocomp,omitempty"`
-	FilterBits        int     `json:"fbits,omitempty"` // 0 = no filter
-	AltFilterBits     int     `json:"altfbits,omitempty"`
-	FilterBaseLg      int     `json:"fbase,omitempty"`
-	DisableBlockCache bool    `json:"nobc,omitempty"`
-	BlockCacheCap     int     `json:"bcc,omitempty"`
-	OpenFilesCap      int     `json:"ofc,omitempty"`
-	DisableBufferPool bool    `json:"nobp,omitempty"`
-	DisableSeeksComp  bool    `json:"noseek,omitempty"`
-	IterSamplingRate  int     `json:"isr,omitempty"`
-	NoWriteMerge      bool    `json:"nomerge,omitempty"`
-	DisableLargeBatch bool    `json:"nolbt,omitempty"`
-	L0Trigger         int     `json:"l0,omitempty"`
-	L0Slowdown        int     `json:"l0s,omitempty"`
-	L0Pause           int     `json:"l0p,omitempty"`
-	GPOverlapsFactor  int     `json:"gpo,omitempty"`
-	ExpandLimitFactor int     `json:"exp,omitempty"`
-	SourceLimitFactor int     `json:"src,omitempty"`
-	MaxManifestSize   int64   `json:"mms,omitempty"`
-	EvictRemoved      bool    `json:"evict,omitempty"`
-	DisableBackoff    bool    `json:"nobackoff,omitempty"`
-	NoSync            bool    `json:"nosync,omitempty"`
-	StrictAll         bool    `json:"strictall,omitempty"`
+	WriteBuffer       int       `json:"wb,omitempty"`
+	TableSize         int       `json:"ts,omitempty"`
+	TableSizeMult     float64   `json:"tsm,omitempty"`
+	TotalSize         int       `json:"tot,omitempty"`
+	TotalSizeMult     float64   `json:"totm,omitempty"`
+	BlockSize         int       `json:"bs,omitempty"`
+	RestartInterval   int       `json:"ri,omitempty"`
+	NoCompression     bool      `json:"nocomp,omitempty"`
+	FilterBits        int       `json:"fbits,omitempty"` // 0 = no filter
+	AltFilterBits     int       `json:"altfbits,omitempty"`
+	FilterBaseLg      int       `json:"fbase,omitempty"`
+	DisableBlockCache bool      `json:"nobc,omitempty"`
+	BlockCacheCap     int       `json:"bcc,omitempty"`
+	OpenFilesCap      int       `json:"ofc,omitempty"`
+	DisableBufferPool bool      `json:"nobp,omitempty"`
+	DisableSeeksComp  bool      `json:"noseek,omitempty"`
+	IterSamplingRate  int       `json:"isr,omitempty"`
+	NoWriteMerge      bool      `json:"nomerge,omitempty"`
+	DisableLargeBatch bool      `json:"nolbt,omitempty"`
+	L0Trigger         int       `json:"l0,omitempty"`
+	L0Slowdown        int       `json:"l0s,omitempty"`
+	L0Pause           int       `json:"l0p,omitempty"`
+	GPOverlapsFactor  int       `json:"gpo,omitempty"`
+	ExpandLimitFactor int       `json:"exp,omitempty"`
+	SourceLimitFactor int       `json:"src,omitempty"`
+	MaxManifestSize   int64     `json:"mms,omitempty"`
+	EvictRemoved      bool      `json:"evict,omitempty"`
+	DisableBackoff    bool      `json:"nobackoff,omitempty"`
+	NoSync            bool      `json:"nosync,omitempty"`
+	StrictAll         bool      `json:"strictall,omitempty"`
+	Strict            int       `json:"strict,omitempty"`    // 0 default, 1 opt.NoStrict, 2 opt.StrictAll (fault-free checks only: must be invisible)
+	TSMPerLevel       []float64 `json:"tsmpl,omitempty"`     // CompactionTableSizeMultiplierPerLevel
+	TotMPerLevel      []float64 `json:"totmpl,omitempty"`    // CompactionTotalSizeMultiplierPerLevel
+	NoCachers         int       `json:"nocachers,omitempty"` // bit 0: BlockCacher = NoCacher, bit 1: OpenFilesCacher = NoCacher
 }
 
 // Build turns the spec into goleveldb options.
@@ -118,6 +122,20 @@ func (s OptSpec) Build(cmpID string) *opt.Options {
 	if s.StrictAll {
 		o.Strict = opt.StrictAll
 	}
+	switch s.Strict {
+	case 1:
+		o.Strict = opt.NoStrict
+	case 2:
+		o.Strict = opt.StrictAll
+	}
+	o.CompactionTableSizeMultiplierPerLevel = s.TSMPerLevel
+	o.CompactionTotalSizeMultiplierPerLevel = s.TotMPerLevel
+	if s.NoCachers&1 != 0 {
+		o.BlockCacher = opt.NoCacher
+	}
+	if s.NoCachers&2 != 0 {
+		o.OpenFilesCacher = opt.NoCacher
+	}
 	return o
 }
 
@@ -158,5 +176,8 @@ func DrawOpts(t *rapid.T) OptSpec {
 	s.MaxManifestSize = pick(t, "mms", int64(0), 0, 1, 64, 1024)
 	s.EvictRemoved = pick(t, "evict", false, true)
 	s.DisableBackoff = true
+	s.TSMPerLevel = pick(t, "tsmpl", []float64(nil), nil, nil, []float64{2}, []float64{1, 2, 1}, []float64{1, 1, 4})
+	s.TotMPerLevel = pick(t, "totmpl", []float64(nil), nil, nil, []float64{2, 3}, []float64{1, 4, 2})
+	s.NoCachers = pick(t, "nocachers", 0, 0, 0, 0, 1, 2, 3)
 	return s
 }
